@@ -45,7 +45,7 @@ def handle (j : Json) : Except String Json := do
   let r := execPlan s doc op vars world
   let top := topLevel s doc op
   let fs := fragsSize (fragTable doc)
-  let workBound := top + (r.log.map (fun en => (en.subs.map (fun ss => 1 + inlSet ss)).sum + fs)).sum
+  let workBound := top + (r.log.map (fun en => (en.subs.map (fun ss => 1 + inlSet ss.1)).sum + fs)).sum
   let planErr := match selectOp s doc op with | .ok _ => false | .error _ => true
   return Json.mkObj [
     ("plan", Json.arr #[Json.num pc.collect, Json.num pc.pms]),
